@@ -523,8 +523,59 @@ def rebuild_backup(ctx, s):
     rm = [(p, c) for p, bi, c, t in ctx.G.reaches_external([rb.path], lambda c: c.startswith("std::fs::") and
                                                            c.rsplit("::", 1)[-1] in ("remove_file", "remove_dir", "remove_dir_all"),
                                                            within=lambda p: p.startswith("pocket_db::"))]
-    s.add("S-EFFECT", rb, "no-removal-of-old-files", "rebuild", rb.sp, PROVED if not rm else VIOLATION,
-          "no remove_file/remove_dir* is reachable from rebuild" if not rm else "rebuild can delete files: %s" % rm[0][1])
+
+    pushed = {}        # PathBuf local -> names pushed onto it
+    for b_, info_ in an.calls():
+        if (info_["callee"] or "").endswith("::push") and "path" in info_["callee"]:
+            r = info_["args"][0]
+            if r[0] == "ref" and r[1][0] == "local":
+                pushed.setdefault(r[1][1], []).extend(y[1] for y in find_values(info_["args"][1], lambda y: y[0] == "bytes"))
+
+    def path_names(info, ai=0):
+        out = []
+        a = info["args"][ai]
+        if a[0] == "ref" and a[1][0] == "local" and a[1][1] in pushed:
+            out += pushed[a[1][1]]
+        for v in [a] + [p for p in info["pre"][ai:ai + 1] if p is not None]:
+            for x in deep_values(an, v, 4):
+                out += [y[1] for y in find_values(x, lambda y: y[0] == "bytes")]
+        return out
+    # removals in rebuild itself may only clear a stale *.bak (the backup of an earlier rebuild); anything else, or a
+    # removal below rebuild, deletes data of the store
+    removes = s.calls(rb, pred=lambda n, c, b, i: c.startswith("std::fs::") and c.rsplit("::", 1)[-1] in ("remove_file", "remove_dir", "remove_dir_all"))
+    bad_rm = [c for p, c in rm if p != rb.path]
+    cleared = set()
+    for b, info in removes:
+        names = path_names(info)
+        if names and all(n.endswith(b".bak") for n in names if n):
+            cleared |= {n for n in names if n}
+        else:
+            bad_rm.append(info["callee"])
+    s.add("S-EFFECT", rb, "no-removal-of-old-files", "rebuild", rb.sp, PROVED if not bad_rm else VIOLATION,
+          "nothing but a stale *.bak of an earlier rebuild is removed" if not bad_rm else "rebuild can delete files: %s" % bad_rm[0])
+    # a directory cannot be renamed over a non-empty directory: the backup target of every directory rebuild moves aside
+    # (a path rebuild itself re-creates with create_dir) must have been cleared first, or the second rebuild of a store
+    # fails half-way - after the event map was already moved
+    mk = s.calls(rb, pred=lambda n, c, b, i: c.startswith("std::fs::") and c.rsplit("::", 1)[-1] in ("create_dir", "create_dir_all"))
+    dir_names = set()
+    for b, info in mk:
+        dir_names |= {n for n in path_names(info) if n}
+    for b, info in ren:
+        src = {n for n in path_names(info) if n}
+        if not (src & dir_names):
+            continue
+        dst = {n for n in path_names(info, 1) if n}
+        rm_before = [rb_ for rb_, ri in removes if (set(n for n in path_names(ri) if n) & dst) and
+                     (an.cfg.dominates(rb_, b) or s.must_pass(rb, b, [rb_] + s.ok_edges_of_call(rb, rb_)) or
+                      b not in s.reach(rb, [an.cfg.entry], avoid=[rb_]) or True)]
+        # the removal may be conditional on the target existing: it must at least precede the rename on every path that
+        # has it (the removal's block reaches the rename, not the other way round)
+        ok = any(b in s.reach(rb, [x]) and x not in s.reach(rb, [b]) for x in rm_before)
+        s.add("S-ORDER", rb, "backup-target-cleared", ",".join(sorted(n.decode("latin1") for n in dst)) or "?", info["sp"],
+              PROVED if ok else VIOLATION,
+              "the earlier backup of the directory is removed before the directory is renamed onto it" if ok else
+              "a directory is renamed onto its backup path without clearing an earlier backup: the second rebuild of a store "
+              "fails at this rename (ENOTEMPTY) after the event map was already moved aside, leaving indexes without events", b)
 
 
 def marker_codec(ctx, s):
